@@ -1375,7 +1375,7 @@ fn guard_cases(s: &mut Session) {
     ];
     for cones in &corners {
         let m: usize = cones.iter().map(cone_nvars).sum();
-        for n in [1usize, 3] {
+        for n in [0usize, 1, 3] {
             sub(s, n, n, n, m, n, m, cones, true);
             sub(s, n, n, n, m, n, m, cones, false);
             sub(s, n, n, n, m + 1, n, m + 1, cones, true);
@@ -1390,16 +1390,16 @@ fn guard_cases(s: &mut Session) {
         let k = rng.below(5);
         let cones: Vec<SupportedConeT<f64>> = (0..k).map(|_| rand_guard_cone(&mut rng)).collect();
         let m: usize = cones.iter().map(cone_nvars).sum();
-        let n = 1 + rng.below(3);
+        let n = rng.below(4);
         let (mut pm, mut pn, mut q, mut am, mut an, mut b) = (n, n, n, m, n, m);
-        // zero, one or two inconsistencies
-        for _ in 0..*rng.choose(&[0usize, 0, 1, 1, 2]) {
-            let d = 1 + rng.below(2);
-            match rng.below(6) {
-                0 => pm += d, 1 => pn += d, 2 => q += d, 3 => am += d, 4 => an += d,
-                _ => b = if rng.bool(0.5) { b + d } else { b.saturating_sub(d) },
-            }
-        }
+        // any subset of the five violations (so that the ORDER of the asserts is observable)
+        if rng.bool(0.25) { am += 1 + rng.below(2); }                                  // A / b
+        if rng.bool(0.25) { let d = 1 + rng.below(2); am += d; b += d; }               // cones
+        if rng.bool(0.25) { an += 1 + rng.below(2); }                                  // A / q
+        if rng.bool(0.25) { pn += 1 + rng.below(2); if rng.bool(0.5) { pm = pn; } }    // P / q
+        if rng.bool(0.25) { pm += 1 + rng.below(2); }                                  // P square
+        if rng.bool(0.1) { q += 1; }
+        if rng.bool(0.1) { b = b.saturating_sub(1); }
         sub(s, pm, pn, q, am, an, b, &cones, rng.bool(0.8));
     }
 }
@@ -1742,6 +1742,22 @@ fn boundary_cases(s: &mut Session) {
     cases.push(("genpow-dim2-0", Prob { P: I(2), q: vec![1.0, 1.0], A: I(2), b: vec![1.0, 1.0], cones: vec![GenPowerConeT(vec![0.5, 0.5], 0)] }));
     cases.push(("psd2", Prob { P: I(3), q: vec![1.0, 0.0, 1.0], A: I(3), b: vec![1.0, 0.0, 1.0], cones: vec![PSDTriangleConeT(2)] }));
     cases.push(("psd-zero-b", Prob { P: Z(3, 3), q: vec![1.0, 0.0, 1.0], A: { let mut a = I(3); for v in a.nzval.iter_mut() { *v = -1.0; } a }, b: vec![0.0; 3], cones: vec![PSDTriangleConeT(2)] }));
+    // no variables at all (n = 0), with and without constraints
+    cases.push(("n0-nn", Prob { P: Z(0, 0), q: vec![], A: Z(1, 0), b: vec![1.0], cones: vec![NonnegativeConeT(1)] }));
+    cases.push(("n0-m0", Prob { P: Z(0, 0), q: vec![], A: Z(0, 0), b: vec![], cones: vec![] }));
+    cases.push(("n0-infeasible", Prob { P: Z(0, 0), q: vec![], A: Z(2, 0), b: vec![1.0, -1.0], cones: vec![NonnegativeConeT(2)] }));
+    cases.push(("n0-soc", Prob { P: Z(0, 0), q: vec![], A: Z(2, 0), b: vec![1.0, 0.5], cones: vec![SecondOrderConeT(2)] }));
+    // a cone of dimension zero of every kind that has one
+    cases.push(("dim0-all-kinds", Prob { P: I(1), q: vec![1.0], A: I(1), b: vec![1.0],
+        cones: vec![ZeroConeT(0), NonnegativeConeT(0), SecondOrderConeT(0), PSDTriangleConeT(0), GenPowerConeT(vec![], 0), NonnegativeConeT(1),
+            GenPowerConeT(vec![], 0), ZeroConeT(0)] }));
+    {
+        // duplicate columns (the minimiser is not unique) and duplicate rows inside a second-order cone
+        let A = CscMatrix::new(2, 2, vec![0, 2, 4], vec![0, 1, 0, 1], vec![1.0, -1.0, 1.0, -1.0]);
+        cases.push(("duplicate-cols", Prob { P: Z(2, 2), q: vec![1.0, 1.0], A, b: vec![1.0, 1.0], cones: vec![NonnegativeConeT(2)] }));
+        let A = CscMatrix::new(3, 1, vec![0, 3], vec![0, 1, 2], vec![0.0, 1.0, 1.0]);
+        cases.push(("duplicate-rows-soc", Prob { P: I(1), q: vec![0.0], A, b: vec![2.0, 0.0, 0.0], cones: vec![SecondOrderConeT(3)] }));
+    }
     // unbounded / infeasible
     cases.push(("lp-unbounded", Prob { P: Z(1, 1), q: vec![-1.0], A: { let mut a = I(1); a.nzval[0] = -1.0; a }, b: vec![0.0], cones: vec![NonnegativeConeT(1)] }));
     cases.push(("lp-infeasible", Prob { P: Z(1, 1), q: vec![1.0],
@@ -1801,6 +1817,11 @@ fn dimension_cases(s: &mut Session) {
                             for cones in [vec![], vec![1], vec![2], vec![1, 1], vec![0, 2]] {
                                 let l = Line::new("new.check_dimensions").u("Pm", pm).u("Pn", pn).u("q", q)
                                     .u("Am", am).u("An", an).u("b", b).us("cones", &cones);
+                                s.submit(l.done());
+                                // the same shape with the exact class of the panic
+                                let cs: Vec<SupportedConeT<f64>> = cones.iter().map(|&k| NonnegativeConeT(k)).collect();
+                                let l = Line::new("new.guards").u("Pm", pm).u("Pn", pn).u("q", q)
+                                    .u("Am", am).u("An", an).u("b", b).s("cones", &fmt_cones(&cs)).b("presolve", true);
                                 s.submit(l.done());
                             }
                         }
